@@ -124,6 +124,7 @@ Tables(kty) == LET K == KeyLits(kty) IN
    two      |-> << Pair(<<K[1]>>, "A"), Pair(<<K[2]>>, "B") >>,
    list     |-> << Pair(<<K[1], K[2]>>, "A"), Pair(<<K[3]>>, "B") >>,
    sameTgt  |-> << Pair(<<K[1], K[2]>>, "A"), Pair(<<K[3]>>, "A") >>,
+   rev      |-> << Pair(<<K[1]>>, "B"), Pair(<<K[2]>>, "A") >>,
    payloads |-> << Pair(<<K[1]>>, "Empty"), Pair(<<K[2]>>, "Lst"), Pair(<<K[3]>>, "Big") >>,
    objpayload |-> << Pair(<<K[1]>>, "WithObj"), Pair(<<K[2]>>, "A") >>,
    ckpayload |-> << Pair(<<K[1]>>, "CkPkt"), Pair(<<K[2]>>, "Zeta") >>]
@@ -159,6 +160,11 @@ MatchCells(i) == { LET tbl == Tables(kty)[form] IN
                         Cell("match:samekey", <<Sc(Nm("k", i), "u8"),
                                                 [F0 EXCEPT !.k = "match", !.name = Nm("ba", i), !.key = Nm("k", i), !.pairs = t1],
                                                 [F0 EXCEPT !.k = "match", !.name = Nm("bb", i), !.key = Nm("k", i), !.pairs = t2]>>, AuxOf(t1) \cup AuxOf(t2), FALSE) }
+                 \* ... whose tables START with different packets and map the same keys to different packets
+                 \cup { LET t1 == Tables("u8")["two"] t2 == Tables("u8")["rev"] IN
+                        Cell("match:samekey:rev", <<Sc(Nm("k", i), "u8"),
+                                                    [F0 EXCEPT !.k = "match", !.name = Nm("ba", i), !.key = Nm("k", i), !.pairs = t1],
+                                                    [F0 EXCEPT !.k = "match", !.name = Nm("bb", i), !.key = Nm("k", i), !.pairs = t2]>>, AuxOf(t1) \cup AuxOf(t2), FALSE) }
                  \* key and match inside an inline object
                  \cup { LET t == Tables("u8")["two"] IN
                         Cell("match:insideinl", <<[F0 EXCEPT !.k = "inl", !.name = Nm("Env", i),
